@@ -1,5 +1,6 @@
 import LinOp.C07.ProofsSym
 import LinOp.C07.ProofsBackward
+import LinOp.C07.ProofsEig
 import Mathlib.Tactic.NormNum
 import LinOp.C07.ProofsFunc
 /-!
@@ -256,6 +257,39 @@ theorem solve_backward_left {n c l : Nat} (A Ainv dA : Matrix (Fin n) (Fin n) α
       = Matrix.trace ((G * Xᵀ)ᵀ * dL) + (Matrix.trace ((Ainvᵀ * (Lᵀ * G))ᵀ * dR) - bilS dA (Ainvᵀ * (Lᵀ * G)) X) :=
   solveLeft_pullback A Ainv dA X dX R dR L dL G hinv h1
 
+/-- **First-order perturbation of the eigen-decomposition under the eigh contract** (`A U = U Λ`, `Uᵀ U = 1`, `A` symmetric,
+distinct eigenvalues expressed by a kernel `F` with `F_ij (λ_j − λ_i) = 1` for `i ≠ j`, `F_ii = 0`; `2` cancellable): if
+`(A+εdA)(U+εdU) = (U+εdU)(Λ+εdΛ)` and `(U+εdU)ᵀ(U+εdU) = 1` to first order, then `dλ_i = (Uᵀ dA U)_ii` and
+`Uᵀ dU = F ∘ (Uᵀ dA U)`, i.e. `dU = U (F ∘ (Uᵀ dA U))`. -/
+theorem diagonalization_first_order {n : Nat} (U A dA dU F : Matrix (Fin n) (Fin n) α) (lam dlam : Fin n → α)
+    (hU : Uᵀ * U = 1) (hA : A * U = U * Matrix.diagonal lam) (hAs : Aᵀ = A)
+    (h1 : dA * U + A * dU = dU * Matrix.diagonal lam + U * Matrix.diagonal dlam)
+    (h2 : dUᵀ * U + Uᵀ * dU = 0)
+    (hF : ∀ i j, i ≠ j → F i j * (lam j - lam i) = 1) (hF0 : ∀ i, F i i = 0) (h2c : ∀ x : α, x + x = 0 → x = 0) :
+    (∀ i, dlam i = (Uᵀ * dA * U) i i) ∧ (∀ i j, (Uᵀ * dU) i j = F i j * (Uᵀ * dA * U) i j) :=
+  eig_first_order U A dA dU F lam dlam hU hA hAs h1 h2 hF hF0 h2c
+
+/-- **`Diagonalization.backward`** (`diagonalization(method="lanczos")`): the code computes `kmat_ij = 1/(λ_i − λ_j)` and returns
+`dL/dM = U (kmat.mT ∘ (Uᵀ G)) Uᵀ + U diag(g) Uᵀ`, `G = dL/dU`, `g = dL/dΛ`; with `F = kmat.mT` (`F_ij = 1/(λ_j − λ_i)`, the
+transposition applied ONCE, to `kmat` only) this matrix pairs with every perturbation `dA` to the first-order change of the loss:
+`⟨G, dU⟩ + Σ_i g_i dλ_i = ⟨dL/dM, dA⟩`.  (The gradient is delivered un-symmetrised; it is compared along symmetric `dA`.)
+NOT covered: that the Lanczos output satisfies the eigh contract (C09), the `1e-10` regulariser in `kmat`, and the fact that the
+code returns `dL/dM` as the gradient of the first representation tensor (finding D65: correct for dense operators only). -/
+theorem diagonalization_backward {n : Nat} (U A dA dU F G : Matrix (Fin n) (Fin n) α) (lam dlam g : Fin n → α)
+    (hU : Uᵀ * U = 1) (hA : A * U = U * Matrix.diagonal lam) (hAs : Aᵀ = A)
+    (h1 : dA * U + A * dU = dU * Matrix.diagonal lam + U * Matrix.diagonal dlam)
+    (h2 : dUᵀ * U + Uᵀ * dU = 0)
+    (hF : ∀ i j, i ≠ j → F i j * (lam j - lam i) = 1) (hF0 : ∀ i, F i i = 0) (h2c : ∀ x : α, x + x = 0 → x = 0) :
+    Matrix.trace (Gᵀ * dU) + ∑ i, g i * dlam i
+      = Matrix.trace ((U * (Matrix.hadamard F (Uᵀ * G) + Matrix.diagonal g) * Uᵀ)ᵀ * dA) :=
+  diagonalization_pullback U A dA dU F G lam dlam g hU hA hAs h1 h2 hF hF0 h2c
+
+/-- The kernel of `Diagonalization.backward` is antisymmetric (`F_ji = −F_ij`): using `kmat` instead of `kmat.mT` flips the
+sign of the eigenvector term — invisible to losses whose `Uᵀ dL/dU` is symmetric (trace-like, eigenvalue-only). -/
+theorem diagonalization_kernel_antisymm {n : Nat} (F : Matrix (Fin n) (Fin n) α) (lam : Fin n → α)
+    (hF : ∀ i j, i ≠ j → F i j * (lam j - lam i) = 1) (i j : Fin n) (hij : i ≠ j) : F j i = - F i j :=
+  eigKernel_antisymm F lam hF i j hij
+
 /-- **`RootDecomposition.backward`** (full-rank case, `W = R⁻ᵀ` the saved inverse root, `½ + ½ = 1`, symmetric `dA`):
 (1) the root differential `dR = ½ dA W` is a first-order root of `A + ε dA` (`dR Rᵀ + R dRᵀ = dA`);
 (2) `dW = −W dRᵀ W` is the matching differential of the inverse root (`dRᵀ W + Rᵀ dW = 0`);
@@ -330,6 +364,18 @@ example : (1 : Matrix (Fin 2) (Fin 2) ℚ) * (1 : Matrix (Fin 2) (Fin 2) ℚ)ᵀ
 example : (1 : Matrix (Fin 2) (Fin 2) ℚ) * ((-1 : ℚ) • (1 : Matrix (Fin 2) (Fin 2) ℚ) + (2 : ℚ) • 1) = 1 := by
   rw [← add_smul]; norm_num
 example : (1 : ℚ) • ((1 : Matrix (Fin 2) (Fin 2) ℚ) * (1 : Matrix (Fin 2) (Fin 2) ℚ)ᵀ) = 1 := by simp
+
+/-- Hypotheses of `diagonalization_backward` are satisfiable: eigenvalues 1, 2 in ℚ with kernel `F = [[0, 1], [−1, 0]]`,
+`U = 1`, `A = diag(1, 2)`; `x + x = 0 → x = 0` in ℚ. -/
+example : ∀ i j : Fin 2, i ≠ j → (!![0, 1; -1, 0] : Matrix (Fin 2) (Fin 2) ℚ) i j * ((![1, 2] : Fin 2 → ℚ) j - ![1, 2] i) = 1 := by
+  intro i j h
+  match i, j, h with
+  | 0, 0, h => exact absurd rfl h
+  | 0, 1, _ => norm_num
+  | 1, 0, _ => norm_num
+  | 1, 1, h => exact absurd rfl h
+example : ∀ x : ℚ, x + x = 0 → x = 0 := fun x h => by linarith
+example : (Matrix.diagonal ![1, 2] : Matrix (Fin 2) (Fin 2) ℚ) * 1 = 1 * Matrix.diagonal ![1, 2] := by simp
 
 /-- Kronecker product of three factors (right-nested), under a hand-written parent, with a Chol-type root and a Cat. -/
 example : Op (2 * (3 * 2) + 4) 12 :=
